@@ -122,7 +122,7 @@ func c14BigCases(c *gen.Ctx) {
 				s.Ending = "eof"
 			}
 		}
-		c.Do("big", in)
+		c14Do(c, "big", in)
 		e.Count("big:" + in.Path)
 	}
 	chunks := []int64{1 << 26, 1<<26 - 1, 1 << 24, 1<<20 + 3}
